@@ -487,7 +487,10 @@ class Translator:
             target = spec['expr_of']
             found = []
             for n in ast.walk(node):
-                if isinstance(n, ast.Assign) and len(n.targets) == 1 and isinstance(n.targets[0], ast.Name) \
+                if isinstance(n, ast.AugAssign) and isinstance(n.target, ast.Name) and n.target.id == target:
+                    found.append(ast.BinOp(left=ast.Name(id=target, ctx=ast.Load()), op=n.op, right=n.value))
+                if isinstance(n, ast.Assign) and not spec.get('aug_only') and len(n.targets) == 1 \
+                        and isinstance(n.targets[0], ast.Name) \
                         and n.targets[0].id == target and not (isinstance(n.value, ast.Constant) and n.value.value is None):
                     found.append(n.value)
             if len(found) != 1:
